@@ -2,7 +2,7 @@ package main
 
 func init() {
 	register(&propDef{ID: "C19", Title: "Shared state is free of data races under concurrent requests",
-		Explanation: "Decides the guarded-by discipline (necessary for race freedom) of the shared mutable state found by reading: every access to the listed struct fields, to the maps they hold, and to the guarded fields of objects stored in those maps has the owning lock in its must-hold set on every path from every entry point (lockset analysis over SSA, interprocedural by requires-summaries); (R4) the lock-free shared fields of the long-lived objects are stored only on freshly allocated objects or in the constructor/init functions; (R5) no closure started with `go` captures a variable that is assigned again after the go statement; the static CNI network configuration is never written after Init; (R7) every field of the 8 long-lived shared struct types is classified: guarded, write-once, synchronisation primitive, inferred write-once (stored only on fresh objects, address never handed out, container never updated in place) or a named exemption — a field that is in no table but is written after construction is treated as guarded by its struct's lock, so R1 checks every access of it (a new field that is properly locked passes, an unlocked one is reported at the access; on a lock-less struct it is reported as unclassified); (R8) no field or map of an object obtained from a lister/indexer is written (16 lookups followed through fields, elements, locals and module callees); (R9) a local map/slice stored into a guarded field or map is not updated in place on any path after the publishing store. Does not decide race freedom of state outside the table, happens-before publication, or races inside dependencies. (R10) no MapUpdate / delete in the ipam packages writes a map read from <FloatingIP>.Labels: the label map is shared with handed-out copies and is only ever replaced. (R11) every store to a field of grpcCloudProvider is on the fresh object or inside the closure handed to sync.Once.Do. (R12) every call of (*runner).run in pkg/utils/iptables happens with runner.mu held, directly or in an unexported helper all of whose call sites hold it.",
+		Explanation: "Decides the guarded-by discipline (necessary for race freedom) of the shared mutable state found by reading: every access to the listed struct fields, to the maps they hold, and to the guarded fields of objects stored in those maps has the owning lock in its must-hold set on every path from every entry point (lockset analysis over SSA, interprocedural by requires-summaries); (R4) the lock-free shared fields of the long-lived objects are stored only on freshly allocated objects or in the constructor/init functions; (R5) no closure started with `go` captures a variable that is assigned again after the go statement; the static CNI network configuration is never written after Init; (R7) every field of the 8 long-lived shared struct types is classified: guarded, write-once, synchronisation primitive, inferred write-once (stored only on fresh objects, address never handed out, container never updated in place) or a named exemption — a field that is in no table but is written after construction is treated as guarded by its struct's lock, so R1 checks every access of it (a new field that is properly locked passes, an unlocked one is reported at the access; on a lock-less struct it is reported as unclassified); (R8) no field or map of an object obtained from a lister/indexer is written (16 lookups followed through fields, elements, locals and module callees); (R9) a local map/slice stored into a guarded field or map is not updated in place on any path after the publishing store. Does not decide race freedom of state outside the table, happens-before publication, or races inside dependencies. (R10) no MapUpdate / delete in the ipam packages writes a map read from <FloatingIP>.Labels: the label map is shared with handed-out copies and is only ever replaced. (R11) every store to a field of grpcCloudProvider is on the fresh object or inside the closure handed to sync.Once.Do. (R12) every call of (*runner).run in pkg/utils/iptables happens with runner.mu held, directly or in an unexported helper all of whose call sites hold it. (R13) a closure started with `go` stores to no by-reference capture that the starter or a sibling goroutine also accesses, unless it takes a mutex.",
 		Assumptions: []string{"locks are identified by (struct type, field): distinct instances of the same type are not distinguished", "no reflection/unsafe access to the guarded fields"},
 		Run: func(c *Ctx) {
 			c.Rule("C19.R1", "guarded-by: every entry point reaches accesses of the 7 shared states only with the owning lock held (R for reads, W for writes)", 31)
@@ -13,6 +13,8 @@ func init() {
 			rulePoolSetsImmutable(c, "C19.R6")
 			c.Rule("C19.R4", "shared fields without a lock are write-once (constructor / init only)", 15)
 			ruleWriteOnce(c, "C19.R4")
+			c.Rule("C19.R13", "a goroutine does not write a captured variable without a lock", 2)
+			ruleGoroutineWritesCaptured(c, "C19.R13")
 			c.Rule("C19.R5", "goroutine closures share no variable written after they started", 5)
 			ruleGoClosureCaptures(c, "C19.R5")
 			c.Rule("C19.R7", "every field of the long-lived shared objects is classified (guarded, write-once, primitive, or named exemption)", 27)
